@@ -17,7 +17,7 @@
 (* TOKENS  tok = index into the instance's value table (0 = a number that  *)
 (*       is not bit-identical to any table entry).  Only NET interprets    *)
 (*       values: V[tok] = [ip, dg] is the exact decimal expansion          *)
-(*       ip.d1d2...d15 and a NET cell is the number of 1e-4 units.         *)
+(*       ip.d1d2...d17 and a NET cell is the number of 1e-4 units.         *)
 (* DOCUMENT one record type per format, listing what the format lists, in  *)
 (*       the order the format prescribes (see WriteBIF etc.).     *)
 (*                                                                         *)
